@@ -41,7 +41,7 @@ def C01(V, tier):
     progs = _programs(n, seed(), "C01", max_ops=5 if tier == "quick" else 8)
     # the umbrella property also runs a slice of every focused family (keyed joins across different
     # partitioning calls, aggregations, fan-out/in, loops)
-    k = 14 if tier == "quick" else 70
+    k = 8 if tier == "quick" else 70
     fam = gen.join_programs(rng, k) + gen.agg_programs(rng, k) + gen.fan_programs(rng, k // 2) + gen.loop_programs(rng, k // 2)
     for i, p in enumerate(fam):
         p["name"] = f"f{i}_" + p["name"]
@@ -89,7 +89,7 @@ def start_replay(V, wd, tier, props):
     V.coverage["behaviours_enumerated_small"] = len(allb)
     if tier == "quick":
         rng.shuffle(allb)
-        behs += allb[:2500]
+        behs += allb[:1200]
     else:
         behs += allb
     num = 150 if tier == "quick" else 2500
@@ -153,7 +153,7 @@ def C05(V, tier):
     start_model(V, wd, tier, ["Start_quick"] if tier == "quick" else ["Start_quick", "Start_thorough"])
     start_replay(V, wd, tier, ["C05"])
     # T: grammar at every operator boundary of generated pipelines
-    n = 40 if tier == "quick" else 400
+    n = 30 if tier == "quick" else 400
     progs = _programs(n, seed() + 17, "C05", max_ops=5 if tier == "quick" else 8)
     rng = random.Random(seed())
     # carry nothing over: the five window kinds over several iterations (metamorphic + per-iteration groups)
@@ -163,13 +163,14 @@ def C05(V, tier):
     op_replay(V, workdir("C05o"), tier, "C05", ["fold", "kfold", "reorder"])
     binary_replay(V, workdir("C05b"), tier, "C05", JOIN_VARIANTS[:4] + [("zip", {}), ("merge", {})])
     # loops with side inputs: the boundary behind a BinaryStart with a cached side (start_out hook)
-    side = gen.loop_programs(rng, 12 if tier == "quick" else 120, nested=False, side=True)
-    loops = gen.loop_programs(rng, 8 if tier == "quick" else 80)
+    side = gen.loop_programs(rng, 10 if tier == "quick" else 120, nested=False, side=True)
+    loops = gen.loop_programs(rng, 6 if tier == "quick" else 80)
     for i, p in enumerate(side + loops):
         p["name"] = f"l{i}_" + p["name"]
         p["prop"] = "C05"
     progs += side + loops
-    matrix = gen.config_matrix(rng, n_local=2, n_remote=1, n_batch=2)
+    matrix = gen.config_matrix(rng, n_local=1, n_remote=1, n_batch=2) if tier == "quick" else \
+        gen.config_matrix(rng, n_local=3, n_remote=2, n_batch=3)
     jobsuite.run_suite(V, wd, progs, matrix, "C05", checks=("boundary",), perturb_us=200)
     V.assumptions += ["FlushBatch carries no content: the grammar is applied with B erased (DESIGN.md C05)"]
 
@@ -200,7 +201,7 @@ def timestamped_jobs(V, wd, tier):
                    timeout=900)
     behs = behs + r2["replays"]
     rng.shuffle(behs)
-    behs = behs[: (60 if q else 600)]
+    behs = behs[: (40 if q else 600)]
     progs = []
     for bi, b in enumerate(behs):
         n = b["n"]
@@ -249,7 +250,7 @@ def C02(V, tier):
         require_coverage(r, ["Produce", "MuxWrite", "DemuxRead", "DemuxFwd", "Consume"], cfg)
         V.add_model(r, cfg)
     rng = random.Random(seed())
-    n = 40 if tier == "quick" else 400
+    n = 28 if tier == "quick" else 400
     progs = _programs(n, seed() + 29, "C02", max_ops=5 if tier == "quick" else 8, input_max=120)
     matrix = [({"mode": "local", "par": 3}, "single"), ({"mode": "local", "par": 2}, "fixed:1"),
               ({"mode": "remote", "hosts": [2, 2]}, "single"), ({"mode": "remote", "hosts": [3, 1]}, "fixed:3"),
@@ -563,7 +564,7 @@ def binary_replay(V, wd, tier, prop, ops):
     V.add_model(r, "Interleave")
     V.coverage["arrival_orders_enumerated"] = len(orders)
     by_case = {c["id"]: c for c in cases}
-    cap = 1400 if q else 20000
+    cap = 500 if q else 20000
     jobs = []
     meta = {}
     todo = [(o, op, var) for o in orders for (op, var) in ops]
@@ -637,7 +638,7 @@ def op_replay(V, wd, tier, prop, ops):
     V.add_model(r, "Start_gen_one")
     V.coverage["scripts_enumerated"] = len(behs)
     rng.shuffle(behs)
-    behs = behs[: (700 if q else 12000)]
+    behs = behs[: (250 if q else 12000)]
     jobs, meta = [], {}
     for bi, b in enumerate(behs):
         script = [rs.el_to_script(ev["el"], None) for ev in b["h"] if ev["d"] == "in"]
@@ -718,7 +719,7 @@ def C09(V, tier):
 def C16(V, tier):
     op_replay(V, workdir("C16r"), tier, "C16", ["reorder"])
     rng = random.Random(seed() + 16)
-    progs = gen.ordered_programs(rng, 40 if tier == "quick" else 300, big=(tier != "quick"))
+    progs = gen.ordered_programs(rng, 24 if tier == "quick" else 300, big=(tier != "quick"))
     matrix = [({"mode": "local", "par": 1}, b) for b in ("default", "single", "fixed:1", "fixed:3", "fixed:1024", "adaptive:2:500")]
     matrix += [({"mode": "local", "par": 3}, "fixed:2"), ({"mode": "remote", "hosts": [1, 2]}, "default")]
     _focused(V, tier, "C16", progs, checks=("result", "link"), matrix=matrix, perturb_us=0)
